@@ -171,6 +171,7 @@ def jobs_for(ctx, mult=1, seed_shift=0):
             jobs.append((["lossy", "mode=exh", "maxlen=3", f"part={i}/{parts}", f"seed={seed()}"], f"exh_{i}"))
             k += 1
         jobs.append((["lossy", "mode=short", f"seed={seed()}"], "short")); k += 1
+        jobs.append((["lossy", "mode=glue", f"seed={seed()}"], "glue")); k += 1
         jobs.append((["lossy", "mode=alpha", f"maxlen={4 if thorough else 3}", f"seed={seed()}"], "alpha")); k += 1
         for j in range(4 if thorough else 1):
             jobs.append((["lossy", "mode=struct", f"n={50000 * mult if thorough else 4000 * mult}", f"seed={seed()}"], f"struct_{j}")); k += 1
